@@ -135,6 +135,7 @@ def _inactive(ctx, rule='C08.1'):
            'the only removal iterates the collected list %s' % lst,
            construct='removal ranges over the collected list')
     writers = 0
+    evars = set()
     by_ast = {}
     for node in graph.nodes:
         if node.kind == 'stmt' and node.ast is not None:
@@ -164,11 +165,14 @@ def _inactive(ctx, rule='C08.1'):
                     have |= set(p[1] for p in parts_ if p[0] == 'atom')
         down = any(_state_fact(f, statevar, 'down') for f in have)
         frozen = any(_state_fact(f, statevar, 'frozen') for f in have)
+        # <deadline local> <= now, whatever the local is called
         expired = [f for f in have if f.key[0] == 'cmp' and
-                   f.key[1] in ('<', '<=') and sorted(
-                       t for t, _c in f.key[2]) == sorted(
-                           ['expires_at', 'time.time()']) and
-                   dict(f.key[2])['expires_at'] > 0]
+                   f.key[1] in ('<', '<=') and len(f.key[2]) == 2 and
+                   dict(f.key[2]).get('time.time()', 0) < 0 and
+                   all(c > 0 and t.isidentifier() for t, c in f.key[2]
+                       if t != 'time.time()')]
+        for f in expired:
+            evars.update(t for t, _c in f.key[2] if t != 'time.time()')
         marked = any(f.key[0] == 'truth' and f.key[2] and
                      f.key[1] == '%s.unschedule' % eltv for f in have)
         from_srv = bool(part['domains']) and N.txt(
@@ -195,8 +199,8 @@ def _inactive(ctx, rule='C08.1'):
     # expires_at definition
     defs = [n for n in graph.nodes if n.kind == 'stmt' and
             isinstance(n.ast, ast.Assign) and
-            N.txt(n.ast.targets[0]) == 'expires_at']
-    ctx.require(defs, 'definition of expires_at')
+            N.txt(n.ast.targets[0]) in evars]
+    ctx.require(defs, 'definition of the retention deadline')
     for node in defs:
         val = K.rexpr(func, node.ast.value)
         # the definition case by case: a conditional expression is two
@@ -435,6 +439,23 @@ def _presence(ctx):
     stores = [n for n in graph.nodes if any(
         N.txt(t).endswith('.state') for t, _v, _k in K.assigns_attr(n))]
     ctx.require(stores, 'presence-based state stores')
+    pdefs = {}
+    for sub in K.walk_no_nested(adj.node):
+        if isinstance(sub, ast.Assign) and len(sub.targets) == 1 and \
+                isinstance(sub.targets[0], ast.Name):
+            pdefs.setdefault(sub.targets[0].id, []).append(N.txt(sub.value))
+
+    def presence(fact):
+        """truth of "the presence node exists": the test spelled out or a
+        local bound (once) to it, whatever it is called."""
+        if fact.key[0] != 'truth':
+            return False
+        text = fact.key[1]
+        if text.isidentifier():
+            vals = pdefs.get(text, [])
+            text = vals[0] if len(vals) == 1 else ''
+        return 'exists(' in text and 'server_presence(' in text
+    seen_presence = []
     for node in stores:
         ok = bool(restores) and K.guarded_by(
             graph, node, lambda e: e.src in restores)
@@ -445,12 +466,11 @@ def _presence(ctx):
         val = [N.txt(v) for t, v, _k in K.assigns_attr(node)][0]
         fs = facts[node]
         if val.endswith('State.down'):
-            ok = any(f.key[0] == 'truth' and f.key[1] == 'is_up' and
-                     not f.key[2] for f in fs)
+            ok = any(presence(f) and not f.key[2] for f in fs)
+            seen_presence.append(ok)
             ctx.ob('C08.5', adj, node, ok, 'no presence => down')
         elif val.endswith('State.up'):
-            ok = any(f.key[0] == 'truth' and f.key[1] == 'is_up' and
-                     f.key[2] for f in fs) and any(
+            ok = any(presence(f) and f.key[2] for f in fs) and any(
                          f.key[0] == 'is' and not f.key[3] and
                          'State.frozen' in N.show(f) for f in fs)
             ctx.ob('C08.5', adj, node, ok,
@@ -476,13 +496,8 @@ def _presence(ctx):
         ctx.ob('C08.5', adj, node, ok,
                'restored from the stored record: state <- %s, since <- %s'
                % (a0, a1))
-    is_up_def = [s for s in K.walk_no_nested(adj.node)
-                 if isinstance(s, ast.Assign) and
-                 N.txt(s.targets[0]) == 'is_up']
-    ctx.ob('C08.5', adj, is_up_def[0] if is_up_def else None,
-           len(is_up_def) == 1 and 'exists' in N.txt(is_up_def[0].value)
-           and 'server_presence' in N.txt(is_up_def[0].value),
-           'is_up is the existence of the presence node',
+    ctx.ob('C08.5', adj, None, bool(seen_presence) and all(seen_presence),
+           'the state is decided by the existence of the presence node',
            construct='is_up definition')
 
 
